@@ -235,6 +235,25 @@ fn check_wrong(bytes: &[u8], idx: usize, wrong: &[u8], what: &str, st: &mut Stat
     }
 }
 
+/// Four bytes that take the raw CRC-32 register from `state` to `want` (table method, backwards then forwards).
+fn forge_tail(state: u32, want: u32) -> [u8; 4] {
+    let t = |i: usize| crc32::step(0, i as u8);
+    let mut r = want;
+    let mut idx = [0usize; 4];
+    for i in (0..4).rev() {
+        let k = (0..256).find(|&k| t(k) >> 24 == r >> 24).unwrap_or(0);
+        idx[i] = k;
+        r = (r ^ t(k)) << 8;
+    }
+    let mut s = state;
+    let mut out = [0u8; 4];
+    for i in 0..4 {
+        out[i] = (idx[i] as u32 ^ (s & 0xff)) as u8;
+        s = crc32::step(s, out[i]);
+    }
+    out
+}
+
 fn replay(case: &Value, st: &mut Stats) {
     let bytes = crate::util::unhex(case["archive"].as_str().unwrap_or(""));
     let pw = crate::util::unhex(case["password"].as_str().unwrap_or(""));
@@ -546,6 +565,48 @@ pub fn run(args: &Args) -> i32 {
     });
     ctx.stats.merge(s);
     ctx.bound("check_byte_values", json!("all 256, writer-made and builder-made"));
+
+    // contents whose CRC-32 is a value that code might take for "no checksum recorded": 0 and 0xFFFFFFFF (four forged closing
+    // bytes). The right password reads them exactly; wrong passwords that pass the one-byte check must still end in an error.
+    {
+        let mut st = Stats::default();
+        for (k, target) in [0u32, 0xffff_ffff, 0x0000_00ff, 0xff00_0000].into_iter().enumerate() {
+            for m in [0u16, 8] {
+                let mut content = format!("content with a forged checksum #{k}, {}", "padding ".repeat(40)).into_bytes();
+                let tail = forge_tail(crc32::update(!0, &content), !target);
+                content.extend_from_slice(&tail);
+                if crc32::crc32(&content) != target {
+                    ctx.machinery(format!("CRC forging failed for {target:#010x}"));
+                    continue;
+                }
+                let pw = b"forged".to_vec();
+                for foreign in [false, true] {
+                    let bytes = if foreign {
+                        build(&Spec { entries: vec![ESpec { name: b"f".to_vec(), method: m, content: content.clone(), enc: Enc::ZipCrypto { pw: pw.clone(), infozip: false }, ..Default::default() }], ..Default::default() }).0
+                    } else {
+                        exec(&[Call::StartFile { name: "f".into(), opts: FOpts { password: Some(pw.clone()), ..FOpts::m(m) } }, Call::Write(content.clone()), Call::Finish], &[]).1
+                    };
+                    let what = format!("forged-crc-{target:#010x}:m{m}/{}", if foreign { "foreign" } else { "writer" });
+                    let (b2, c2, pw2) = (bytes.clone(), content.clone(), pw.clone());
+                    let case = move || json!({"archive": hex(&b2), "password": hex(&pw2), "idx": 0, "name": "f", "content": hex(&c2)});
+                    st.distinct_hash(fnv(&bytes));
+                    check_entry(&bytes, 0, "f", &pw, &content, &what, &mut st, &case, (6 << 50) + k as u64);
+                    let mut passed = 0u64;
+                    for w in 0..2048u32 {
+                        let wrong = format!("wrong-{w}").into_bytes();
+                        let (b3, w2) = (bytes.clone(), wrong.clone());
+                        let case = move || json!({"archive": hex(&b3), "idx": 0, "wrong": hex(&w2)});
+                        if check_wrong(&bytes, 0, &wrong, &what, &mut st, &case, (6 << 50) + ((k as u64) << 20) + w as u64) {
+                            passed += 1;
+                        }
+                    }
+                    st.count("wrong_passwords_passing_the_check_byte(forged CRCs)", passed);
+                }
+            }
+        }
+        ctx.stats.merge(st);
+        ctx.bound("forged_crcs", json!("contents with CRC-32 0, 0xFFFFFFFF, 0x000000FF, 0xFF000000 x {Stored, Deflated} x {writer, builder}; 2048 wrong passwords each"));
+    }
 
     // wrong passwords over all 256 decrypted check bytes
     let s = par_for(4, 1, |mi, st| {
